@@ -46,6 +46,8 @@ def compare_views(ctx, inputs, views, fields, bad, stats):
                 bad("%s `unit` of %s lists the units at %s; the file stores %s" % (view, name, units, mu), case)
             if view == "raw" and "walk" in m and [r["off"] for r in rows] != m["walk"]:
                 bad("raw `entry` of %s visits the DIEs at %s; the model of the iterator (dw/Iter.v) visits %s" % (name, [hex(r["off"]) for r in rows][:30], [hex(x) for x in m["walk"]][:30]), case)
+            if view == "cooked" and "entries" in m and [r["off"] for r in rows] != [o for o, _ in m["entries"]]:
+                bad("cooked `entry` of %s visits the DIEs at %s; the model of the producer (dw/ChildIter.v) hands out %s" % (name, [hex(r["off"]) for r in rows][:30], [hex(o) for o, _ in m["entries"]][:30]), case)
             d = dwforest.compare_rows(rows, m[view], fields)
             if d:
                 bad("%s view of %s: %s" % (view, name, d), case)
